@@ -234,7 +234,8 @@ Qed.
 
 Section RC.
   Variable g : its.
-  Hypothesis noH : forall u, is_H_i g u = false.
+  (** no bond joins two hydrogen atoms (then _add_hh_bonds adds nothing) *)
+  Hypothesis noHH : forall u v x, In (u, v, x) (gedges g) -> is_hh g u v = false.
   Hypothesis closedg : forall u v x, In (u, v, x) (gedges g) -> (exists a, label g u = Some a) /\ (exists b, label g v = Some b).
 
   Definition ninv (ns : list (N * inode)) : Prop :=
@@ -288,10 +289,10 @@ Section RC.
       + apply IH; assumption.
   Qed.
 
-  Lemma fold_hh es st : fold_left (step_hh g) es st = st.
+  Lemma fold_hh es st : (forall u v x, In (u, v, x) es -> is_hh g u v = false) -> fold_left (step_hh g) es st = st.
   Proof.
-    revert st. induction es as [|[[u v] x] r IH]; intros st; cbn [fold_left]; [reflexivity|].
-    unfold step_hh at 2. unfold is_hh. rewrite (noH u). simpl. apply IH.
+    revert st. induction es as [|[[u v] x] r IH]; intros st H; cbn [fold_left]; [reflexivity|].
+    unfold step_hh at 2. rewrite (H u v x (or_introl eq_refl)). apply IH. intros; eapply H; right; eauto.
   Qed.
 
   Lemma get_rc_spec :
@@ -300,7 +301,7 @@ Section RC.
     gedges (get_rc g) = filter (fun e => changed (snd e)) (gedges g) /\
     (forall u v x, In (u, v, x) (gedges (get_rc g)) -> In u (node_ids (get_rc g)) /\ In v (node_ids (get_rc g))).
   Proof.
-    unfold get_rc. rewrite fold_hh. unfold node_ids; simpl.
+    unfold get_rc. rewrite (fold_hh _ _ noHH). unfold node_ids; simpl.
     assert (P1 : ninv (fst (@nil (N * inode), @nil (N * N * iedge)))) by (split; [constructor|intros n a []]).
     assert (P2 : forall u v x, In (u, v, x) (snd (@nil (N * inode), @nil (N * N * iedge))) ->
                    In u (map fst (fst (@nil (N * inode), @nil (N * N * iedge)))) /\ In v (map fst (fst (@nil (N * inode), @nil (N * N * iedge)))))
@@ -318,7 +319,8 @@ Section Centre.
   Hypothesis PW : pair_wf G H.
   Hypothesis CG : closed G.
   Hypothesis CH : closed H.
-  Hypothesis NH : no_explicit_H G = true.
+  (** no bond of G or H joins two hydrogen atoms *)
+  Hypothesis NHH : forall u v x, In (u, v, x) (gedges (its_construct G H)) -> is_hh (its_construct G H) u v = false.
   Let HG := pw_A _ _ PW.
   Let HH := pw_B _ _ PW.
   Let T0 := its_construct G H.
@@ -326,17 +328,6 @@ Section Centre.
 
   Lemma T0_label n a : label T0 n = Some a -> a = its_node G H n /\ In n (node_ids G).
   Proof. intros E. apply (construct_node G H PW n a). apply assoc_in. exact E. Qed.
-  Lemma G_not_H n x : label G n = Some x -> N.eqb (a_el x) EL_H = false.
-  Proof.
-    intros E. unfold no_explicit_H in NH. rewrite forallb_forall in NH.
-    specialize (NH (n, x) (assoc_in n (gnodes G) E)). simpl in NH. apply negb_true_iff. exact NH.
-  Qed.
-  Lemma T0_noH u : is_H_i T0 u = false.
-  Proof.
-    unfold is_H_i. destruct (label T0 u) as [a|] eqn:E; [|reflexivity].
-    destruct (T0_label u a E) as [-> I]. destruct (in_ids_label G u I) as [x Ex].
-    unfold its_node, side_tuple; simpl. rewrite Ex. exact (G_not_H u x Ex).
-  Qed.
   Lemma T0_closed u v x : In (u, v, x) (gedges T0) -> (exists a, label T0 u = Some a) /\ (exists b, label T0 v = Some b).
   Proof.
     intros I. destruct (construct_edge_orders G H PW CG CH u v x I) as (Iu & Iv & _).
@@ -349,7 +340,7 @@ Section Centre.
     - right. exact (wf_host_orders H u v o HH Io).
   Qed.
 
-  Let SP := get_rc_spec T0 T0_noH T0_closed.
+  Let SP := get_rc_spec T0 NHH T0_closed.
 
   Lemma rc_in_T0 u v x : In (u, v, x) (gedges rc) -> In (u, v, x) (gedges T0) /\ changed x = true.
   Proof. intros I. unfold rc in I. rewrite (proj1 (proj2 (proj2 SP))) in I. apply filter_In in I. exact I. Qed.
@@ -378,14 +369,6 @@ Section Centre.
       destruct (construct_edge_orders G H PW CG CH u v x I0) as (_ & _ & Eg & Eh & _). auto.
   Qed.
 
-  Lemma rc_no_explicit : explicit_centre rc = false.
-  Proof.
-    unfold explicit_centre. destruct (existsb _ (gnodes rc)) eqn:E; [|reflexivity]. exfalso.
-    apply existsb_exists in E. destruct E as ([n a] & I & Hh). simpl in Hh.
-    destruct (rc_node n a I) as (In_ & E1 & _). destruct (in_ids_label G n In_) as [x Ex].
-    rewrite E1 in Hh. unfold side_tuple in Hh. rewrite Ex, (G_not_H n x Ex) in Hh. discriminate.
-  Qed.
-
   Theorem rc_describes : centre_carries T0 = true -> describes G H rc.
   Proof.
     intros CC. constructor.
@@ -412,6 +395,36 @@ Section Centre.
       unfold sel. rewrite (pw_el _ _ PW n x y Ex Ey), H1, H2. reflexivity.
   Qed.
 End Centre.
+
+(** a pair written without hydrogen atoms: no H-H bond, no explicit hydrogen in the centre *)
+Section NoH.
+  Variables G H : hostg.
+  Hypothesis PW : pair_wf G H.
+  Hypothesis CG : closed G.
+  Hypothesis CH : closed H.
+  Hypothesis NH : no_explicit_H G = true.
+
+  Lemma G_not_H n x : label G n = Some x -> N.eqb (a_el x) EL_H = false.
+  Proof.
+    intros E. unfold no_explicit_H in NH. rewrite forallb_forall in NH.
+    specialize (NH (n, x) (assoc_in n (gnodes G) E)). simpl in NH. apply negb_true_iff. exact NH.
+  Qed.
+  Lemma T0_noH u : is_H_i (its_construct G H) u = false.
+  Proof.
+    unfold is_H_i. destruct (label (its_construct G H) u) as [a|] eqn:E; [|reflexivity].
+    destruct (T0_label G H PW u a E) as [-> I]. destruct (in_ids_label G u I) as [x Ex].
+    unfold its_node, side_tuple; simpl. rewrite Ex. exact (G_not_H u x Ex).
+  Qed.
+  Lemma noH_noHH : forall u v x, In (u, v, x) (gedges (its_construct G H)) -> is_hh (its_construct G H) u v = false.
+  Proof. intros u v x _. unfold is_hh. rewrite T0_noH. reflexivity. Qed.
+  Lemma rc_no_explicit : explicit_centre (get_rc (its_construct G H)) = false.
+  Proof.
+    unfold explicit_centre. destruct (existsb _ (gnodes (get_rc (its_construct G H)))) eqn:E; [|reflexivity]. exfalso.
+    apply existsb_exists in E. destruct E as ([n a] & I & Hh). simpl in Hh.
+    destruct (rc_node G H PW CG CH noH_noHH n a I) as (In_ & E1 & _). destruct (in_ids_label G n In_) as [x Ex].
+    rewrite E1 in Hh. unfold side_tuple in Hh. rewrite Ex, (G_not_H n x Ex) in Hh. discriminate.
+  Qed.
+End NoH.
 
 (** * inversion *)
 Lemma sel_inv_tuple t : sel (inv_tuple t) = sel t.
